@@ -94,7 +94,7 @@ class ObjFlow:
             if self._is_obj_place(pl):
                 f = self._field_of_place(pl)
                 if f is not None:
-                    v = self.vid(a.expr_rvalue(s["rv"], (bi, si)))
+                    v = self.vid(self._pval(s["rv"], (bi, si)))
                     for x in cur:
                         x[f] = v
                 elif not [p for p in pl["p"] if p != "*"]:
@@ -144,6 +144,14 @@ class ObjFlow:
                     sts = None
                 if sts:
                     return [{f: self.vid(x) for f, x in st.items()} for st in sts]
+        if v[0] == "adt" and isinstance(v[2], tuple) and v[1].rsplit("::", 1)[0].endswith(self.adt) and all(isinstance(x, tuple) and len(x) == 2 and isinstance(x[0], str) for x in v[2]):
+            # a struct literal, possibly with `..Default::default()` for the fields it does not name
+            st = {"*": self.vid(DEFAULT)}
+            for fname, fv in v[2]:
+                if fv[0] == "field" and fv[1][0] == "call" and (fv[1][1].endswith("Default>::default") or fv[1][1].endswith("::default")) and not fv[1][2]:
+                    continue
+                st[fname] = self.vid(fv)
+            return [st]
         if v[0] == "call":
             p = v[1]
             if p.endswith(self.adt + " as core::default::Default>::default") or p.endswith(self.adt + "::new") or p.endswith(self.adt + "::default"):
@@ -229,12 +237,24 @@ class ObjFlow:
                 x["*"] = op
         return cur
 
+    def _pval(self, rv, at):
+        """value of an rvalue; where the function carries path-dependent selector values (an outcome enum matched further
+        down) and every way of reaching the statement agrees on them, they are used (as engine.call_args does)"""
+        a = self.a
+        if self.fn.key in getattr(self.prog.facts, "changed_fns", ()):
+            try:
+                g = self.prog.pg_of(self.fn)
+            except Exception:
+                g = None
+            if g is not None and g.tracked and not g.truncated:
+                v = g.eval_at(at, lambda env: a.expr_rvalue(rv, at, 0, env))
+                if v is not None:
+                    return v
+        return a.expr_rvalue(rv, at)
+
     def _edge_lits(self, b, succ):
         """literals of the CFG edge b -> succ (from the product graph; only when every node of b agrees)"""
-        if self._pg is None:
-            from .pg import PG
-            self._pg = PG(self.prog, self.fn)
-        g = self._pg
+        g = self.prog.pg_of(self.fn)
         found = None
         for n in g.by_block.get(b, []):
             for m, lits in g.edges[n] or []:
